@@ -1366,6 +1366,10 @@ class Renderer:
             return Cat(parts)
         if isinstance(value, (list, tuple)) and name in ("list", "sort", "unique") and not args and not kwargs:
             return list(value)
+        if name == "join" and not kwargs and len(args) <= 1 and (not args or isinstance(args[0], str)):
+            # `x|join(sep)` is `sep.join(x)`: one canonical spelling (the method-call form), so rules see the same hole for both
+            sep = args[0] if args else ""
+            return Sym(f"{self.canon_val(sep)}.join({self.canon_args([value], {})})")
         if name in ("first", "last"):
             k = (self.canon_val(value), name)
             if k not in self.uses:
